@@ -5,6 +5,10 @@
 # for replaying the old shape against a scratch worktree that reverts the fix).
 import os
 MODEL_MODE = os.environ.get("VERIF_C14_MODE", "fixed")
+# hooks/C14-fix3.patch (proposal, NOT in /repo: every read path of the triple store honours DeleteEdge). When it lands:
+# default this to "1" and set the two tombstone findings in known_findings.json to fixed; the `_fix3` theorems are
+# already proved for that semantics (model suite c14t).
+TOMBSTONE_FIX = os.environ.get("VERIF_C14_TOMB", "0") == "1"
 
 P = "Dawgs.C14.Props."
 THEOREMS = {
@@ -27,8 +31,11 @@ THEOREMS = {
         "stateless_bfs_dist_eq",
         "numEdges_eq",
         "degrees_eq",
+        # hooks/C14-fix3.patch (proposal): the statements that become live when it lands
+        "proj_adj_eq_fix3",
+        "numEdges_eq_fix3",
+        "traversals_eq_fix3",
         "dimensions_eq",
-        "adjmap_numEdges_refuted",
         "ts_numEdges_tombstone_refuted",
         "toSegment_panics",
         "toSegment_partial",
@@ -39,6 +46,7 @@ THEOREMS = {
         "ts_adj_eq_old_partial",
         "proj_adj_eq_old_partial",
         "c14_refuted_old",
+        "adjmap_numEdges_refuted_old",
         "c14_old_partial",
     ]],
 }
@@ -121,7 +129,7 @@ SPEC = {
     "gate_modules": ["Dawgs.Model.C14", "Dawgs.Spec.C14", "Dawgs.Proofs.C14", "Dawgs.Proofs.C14TS", "Dawgs.Proofs.C14Csr", "Dawgs.Proofs.C14Reach",
                      "Dawgs.Proofs.C14Bfs", "Dawgs.Proofs.C14Norm", "Dawgs.Proofs.C14Seg", "Dawgs.Proofs.C14Trav", "Dawgs.Proofs.C14TravInst", "Dawgs.Proofs.C14Edges", "Dawgs.Proofs.C14Dims",
                      "Dawgs.Proofs.C14Glue", "Dawgs.Props.C14"],
-    "suites": [{"name": "c14", "model_suite": "c14" if MODEL_MODE == "fixed" else "c14old", "monitor_suite": "c14mon",
+    "suites": [{"name": "c14", "model_suite": ("c14t" if TOMBSTONE_FIX else "c14") if MODEL_MODE == "fixed" else "c14old", "monitor_suite": "c14mon",
                 "keep_prefix": 2, "shrink_budget": 60, "thorough_seeds": 1}],
     "nontrivial": nontrivial,
     "finding_key": finding_key,
